@@ -79,33 +79,43 @@ func c20Classify(b []byte) (string, string) {
 	// (an integer where text or bytes belong, text where a number belongs, a
 	// map anywhere). Nulls, simple values, arrays and tagged items under
 	// claim labels are C04's known findings / carve-outs: no verdict from them.
+	// which stock profile the decoder dispatches to: label 265 alone decides
+	// (its absence means profile 1, whatever -75000 says - a mismatch there is
+	// validation's business, not decoding's)
 	declared := ""
 	dup := map[int64]int{}
+	var v265 *icbor.Node
 	for _, pr := range p.Pairs {
 		if k, ok := pr[0].Int(); ok {
 			dup[k]++
-			if (k == 265 || k == -75000) && pr[1].Kind == icbor.KText {
-				if declared != "" && declared != string(pr[1].B) {
-					return "sign1", ""
-				}
-				declared = string(pr[1].B)
+			if k == 265 {
+				v265 = pr[1]
+			}
+			if k == -75000 && pr[1].Kind != icbor.KText {
+				return "sign1", "" // (a profile-1 claim of another kind: no verdict from here)
 			}
 		}
 	}
 	want := map[int64]string{}
-	switch declared {
-	case P2Name:
+	switch {
+	case dup[265] > 1:
+		return "sign1", ""
+	case v265 != nil:
+		if v265.Kind != icbor.KText || string(v265.B) != P2Name {
+			// another profile (a registered derived one, an OID ...), the
+			// profile-1 name under 265 (carve-out), or nothing registered
+			return "sign1", ""
+		}
+		declared = P2Name
 		want = map[int64]string{2394: "int", 2395: "int", 2396: "bytes", 2397: "bytes", 256: "bytes", 10: "bytes", 2398: "text", 2400: "text", 2399: "array"}
-	case "", P1Name:
-		if declared == "" {
-			// profile 1 by default - unless the map is not a profile-1 token at all
-			has := false
-			for k := range dup {
-				has = has || (k <= -75001 && k >= -75010)
-			}
-			if !has {
-				return "sign1", ""
-			}
+	default:
+		declared = P1Name
+		has := false
+		for k := range dup {
+			has = has || (k <= -75001 && k >= -75010)
+		}
+		if !has {
+			return "sign1", ""
 		}
 		want = map[int64]string{-75001: "int", -75002: "int", -75003: "bytes", -75004: "bytes", -75009: "bytes", -75008: "bytes", -75005: "text", -75010: "text", -75006: "array", -75007: "int"}
 	}
